@@ -75,7 +75,7 @@ CLAIMED = {
           "Activation heights themselves are not reached (mining 275000 blocks per run is too slow).",
           "DESIGN.md 4 C19"),
   "C20": ("fault_enumeration", "fault enumeration with the real start(): all (creating, reopening) configuration pairs, tampered / missing records, foreign directories, crash points of the first-run recording",
-          "All 14 x 14 ordered configuration pairs over 7 networks x traces on/off, each of the 4 recorded keys removed or altered in the config database, populated directory without config, foreign non-empty directory, and every write of the first-run recording as a crash point. Identical configuration must reopen and serve the same digest; anything else must fail to start and leave the data usable under the original configuration. Exhaustive over that finite space.",
+          "All 16 x 16 ordered configuration pairs over 8 networks (incl. the empty name) x traces on/off, each of the 4 recorded keys removed or altered (numeric and non-numeric values) in the config database, populated directory without config, foreign non-empty directory, and every write of the first-run recording as a crash point. Identical configuration must reopen and serve the same digest; anything else must fail to start and leave the data usable under the original configuration. Exhaustive over that finite space.",
           "Version constants are varied by tampering with the stored record (they cannot vary within one build).",
           "DESIGN.md 4 C20"),
 }
